@@ -85,10 +85,35 @@ def build_c_cfg(cu: CUnit, fname: str, consts: Optional[Consts] = None) -> Graph
             v = fold_cond(cond, consts)
             if v is not None:
                 return build(then, nxt, brk, cont) if v else (build(els, nxt, brk, cont) if els else nxt)
-            c = g.new('cond', cond, name='if')
-            g.edge(c, build(then, nxt, brk, cont), 'T')
-            g.edge(c, build(els, nxt, brk, cont) if els else nxt, 'F')
-            return c
+            t_node = build(then, nxt, brk, cont)
+            f_node = build(els, nxt, brk, cont) if els else nxt
+            if not consts.get('__split_conditions__'):
+                c = g.new('cond', cond, name='if')
+                g.edge(c, t_node, 'T')
+                g.edge(c, f_node, 'F')
+                return c
+
+            # opt-in: short-circuit operators lowered to one test node per operand, so `if (A || B) goto slow;` gives the same
+            # facts as `if (A) goto slow; if (B) goto slow;` (B is only evaluated, and the fall-through only reached, with A false)
+            def lower(e: Dict[str, Any], t: int, f: int) -> int:
+                x = e
+                while x.get('kind') in ('ParenExpr', 'ImplicitCastExpr') and x.get('inner'):
+                    x = x['inner'][0]
+                if x.get('kind') == 'BinaryOperator' and x.get('opcode') == '||':
+                    return lower(x['inner'][0], t, lower(x['inner'][1], t, f))
+                if x.get('kind') == 'BinaryOperator' and x.get('opcode') == '&&':
+                    return lower(x['inner'][0], lower(x['inner'][1], t, f), f)
+                if x.get('kind') == 'UnaryOperator' and x.get('opcode') == '!':
+                    y = x['inner'][0]
+                    while y.get('kind') in ('ParenExpr', 'ImplicitCastExpr') and y.get('inner'):
+                        y = y['inner'][0]
+                    if y.get('kind') == 'BinaryOperator' and y.get('opcode') in ('||', '&&'):
+                        return lower(y, f, t)
+                c2 = g.new('cond', x, name='if')
+                g.edge(c2, t, 'T')
+                g.edge(c2, f, 'F')
+                return c2
+            return lower(cond, t_node, f_node)
         if k == 'ForStmt':
             init, _condvar, cond, incr, bod = s['inner']
             head = g.new('join', None, name='for-head', extra=s)
